@@ -32,8 +32,9 @@ type FaultAction int
 const (
 	SendOK FaultAction = iota
 	SendFail
-	SendStall // never returns
-	SendHold  // blocks until Net.ReleaseHeld is called, then proceeds normally
+	SendStall    // never returns
+	SendHold     // blocks until Net.ReleaseHeld is called, then proceeds normally
+	SendHoldFail // blocks until Net.ReleaseHeld is called, then fails
 )
 
 type Net struct {
@@ -177,6 +178,13 @@ func (s *sender) SendMsg(ctx context.Context, m gsmsg.GraphSyncMessage) error {
 		net.Held++
 		vsched.Recv(net.hold)
 		net.Held--
+	case SendHoldFail:
+		net.Held++
+		vsched.Recv(net.hold)
+		net.Held--
+		w.Dropped = true
+		net.Wire = append(net.Wire, w)
+		return errors.New("injected send failure (after a stall)")
 	case SendStall:
 		w.Dropped = true
 		net.Wire = append(net.Wire, w)
